@@ -753,6 +753,65 @@ example : resolveInit (some (⟨some ⟨1, 2, 3⟩, some ⟨0.6, 0, 0, 0.8⟩, s
 example : ∃ d : InitDict ℝ, d.pos = none ∨ d.rot = none ∨ d.vel = none := ⟨⟨none, none, none, none, none⟩, Or.inl rfl⟩
 
 
+/-! ## 9. sign and size of the gravity constant (round 4, class 26) -/
+
+/-- the rotation `removeG` uses: the supplied one, else `R₀ · ΔR` after the step -/
+noncomputable def usedRot (R0 Rnext : Quat ℝ) (f : Frame ℝ) : Quat ℝ :=
+  match f.rot with
+  | some r => r
+  | none => R0.mul Rnext
+
+theorem removeG_usedRot (g : Vec3 ℝ) (R0 Rnext : Quat ℝ) (f : Frame ℝ) :
+    removeG g R0 Rnext f = f.acc.sub ((usedRot R0 Rnext f).conj.act g) := by
+  unfold removeG usedRot; cases f.rot <;> rfl
+
+/-- **The recursion holds for EVERY real gravity constant** — positive (z-up), negative (z-down / NED), zero, tiny, huge: the
+gravity vector `(0,0,g_z)` enters only through `a = acc − R⁻¹ g`. -/
+theorem par_eq_seq_every_gravity (eps gz : ℝ) (reset propCov left : Bool) (st : State ℝ) (fr : Nat → Frame ℝ) (F j : Nat)
+    (hj : j < F) :
+    outAt (call ⟨eps, ⟨0, 0, gz⟩, reset, propCov, left⟩ st none fr F).outs j
+      = compose st.pos st.rot st.vel (preSeq eps ⟨0, 0, gz⟩ st.rot fr (j+1)) :=
+  par_eq_seq _ st fr F j hj
+
+/-- flipping the sign of the gravity constant turns the subtraction into an addition (z-down convention) -/
+theorem removeG_neg_gravity (g : Vec3 ℝ) (R0 Rnext : Quat ℝ) (f : Frame ℝ) :
+    removeG g.neg R0 Rnext f = f.acc.add ((usedRot R0 Rnext f).conj.act g) := by
+  rw [removeG_usedRot, Quat.act_neg]; ext <;> lie_unfold <;> ring
+
+/-- **Gravity removal can be skipped only for `g = 0`**: with a unit rotation, `a = acc` iff the gravity vector is zero —
+in particular NOT for any negative gravity constant. -/
+theorem zero_g_fast_path_iff (g : Vec3 ℝ) (R0 Rnext : Quat ℝ) (f : Frame ℝ) (hu : (usedRot R0 Rnext f).normSq = 1) :
+    removeG g R0 Rnext f = f.acc ↔ g = Vec3.zero := by
+  rw [removeG_usedRot]
+  have hc : (usedRot R0 Rnext f).conj.normSq = 1 := by rw [Quat.normSq_conj, hu]
+  constructor
+  · intro h
+    have hz : ((usedRot R0 Rnext f).conj.act g).normSq = 0 := by
+      have e : (usedRot R0 Rnext f).conj.act g = f.acc.sub (f.acc.sub ((usedRot R0 Rnext f).conj.act g)) := by
+        ext <;> lie_unfold <;> ring
+      rw [e, h]; lie_unfold; ring
+    rw [Quat.act_normSq _ hc] at hz
+    have hx : g.x = 0 ∧ g.y = 0 ∧ g.z = 0 := by
+      unfold Vec3.normSq at hz
+      refine ⟨?_, ?_, ?_⟩ <;> nlinarith [mul_self_nonneg g.x, mul_self_nonneg g.y, mul_self_nonneg g.z]
+    ext <;> simp [Vec3.zero, hx.1, hx.2.1, hx.2.2]
+  · intro h
+    rw [h, Quat.act_zero]; ext <;> lie_unfold <;> ring
+
+/-- a negative gravity constant is NOT zero gravity: the acceleration differs from the raw measurement by exactly `|g_z|` -/
+theorem negative_gravity_is_removed (gz : ℝ) (hg : gz < 0) (R0 Rnext : Quat ℝ) (f : Frame ℝ)
+    (hu : (usedRot R0 Rnext f).normSq = 1) : removeG ⟨0, 0, gz⟩ R0 Rnext f ≠ f.acc := by
+  intro h
+  have := (zero_g_fast_path_iff ⟨0, 0, gz⟩ R0 Rnext f hu).mp h
+  have hz : gz = 0 := by
+    have := congrArg Vec3.z this
+    simpa [Vec3.zero] using this
+  linarith
+
+example : (usedRot (⟨0.6, 0, 0, 0.8⟩ : Quat ℝ) Quat.one ⟨0.01, ⟨0, 0, 0⟩, ⟨0, 0, -9.81⟩, none, ⟨1e-5, 1e-5, 1e-5⟩, ⟨6e-3, 6e-3, 6e-3⟩⟩).normSq = 1 := by
+  simp only [usedRot, Quat.mul_one']; lie_unfold; norm_num
+
+
 /-! ## non-vacuity of the hypotheses -/
 
 example : (⟨0.6, 0, 0, 0.8⟩ : Quat ℝ).normSq = 1 := by lie_unfold; norm_num
